@@ -63,8 +63,46 @@ def _case(draw, tier):
         conns = [list(one) for _ in range(nconn)]
     else:
         conns = [[draw(st.one_of(st.none(), _db)), draw(st.one_of(st.none(), _sc))] for _ in range(nconn)]
-    n = 25 if tier == "quick" else 60
-    return {"conns": conns, "preseed": draw(st.sampled_from([True, True, False])), "ops": draw(st.lists(_op, min_size=3, max_size=n))}
+    n = draw(st.integers(3, 25 if tier == "quick" else 60))
+    # Operations are drawn with a rough picture of which tables exist (where they really land depends on the sessions' contexts, which the
+    # interpreter's model knows): statements then mostly name tables that exist somewhere, and new tables are mostly given a name that
+    # already exists in another database or schema - the situation in which resolving a name in the wrong place goes unnoticed least.
+    # Two in five operations are drawn blindly (context changes, names that exist nowhere).
+    exists: set = set()
+    ops: list = []
+    for _ in range(n):
+        r = draw(st.integers(0, 9))
+        if r < 4:
+            op = draw(_op)
+        elif r < 6 or not exists:
+            twins = sorted({(d, s_, t) for d in DBS for s_ in SCHEMAS for t in TABLES} - exists, key=lambda k: (not any(e[2] == k[2] and e != k for e in exists), k))
+            if not twins:
+                continue
+            k = twins[0] if exists and draw(st.booleans()) else draw(st.sampled_from(twins))
+            op = ["create_table", draw(_ci), [draw(_lvl), *k]]
+        else:
+            k = draw(st.sampled_from(sorted(exists)))
+            kind = draw(st.sampled_from(["insert", "insert", "select", "update", "delete", "describe", "describe", "drop_table", "join", "insert_select", "create_view", "ctas"]))
+            nm = [draw(_lvl), *k]
+            if kind in ("join", "insert_select"):
+                op = [kind, draw(_ci), nm, [draw(_lvl), *draw(st.sampled_from(sorted(exists)))]]
+            elif kind in ("create_view", "ctas"):
+                free = sorted({(d, s_, t) for d in DBS for s_ in SCHEMAS for t in TABLES} - exists)
+                if not free:
+                    continue
+                op = [kind, draw(_ci), [draw(_lvl), *draw(st.sampled_from(free))], nm]
+            else:
+                op = [kind, draw(_ci), nm]
+        ops.append(op)
+        if op[0] in ("create_table", "ctas") and op[2][0] == 3:
+            exists.add(tuple(op[2][1:]))
+        elif op[0] == "create_table":
+            exists.add(tuple(op[2][1:]))  # rough: a shorter name lands wherever the session's context says
+        elif op[0] == "drop_table":
+            exists.discard(tuple(op[2][1:]))
+    if len(ops) < 3:
+        ops += [draw(_op) for _ in range(3 - len(ops))]
+    return {"conns": conns, "preseed": draw(st.sampled_from([True, True, False])), "ops": ops}
 
 
 def _spell(nm) -> str:
@@ -185,7 +223,7 @@ def run_history(case, ctx: Ctx) -> None:
         for ci in range(ncon):
             observers(ci, "ctx=connect")
 
-        for op in case["ops"]:
+        for step_no, op in enumerate(case["ops"]):
             kind, ci = op[0], op[1]
             if not isinstance(ci, int):
                 raise InvalidCase()
@@ -286,7 +324,8 @@ def run_history(case, ctx: Ctx) -> None:
                     used_short_after_change = True
                 tag = m.next_tag
                 if kind == "create_table":
-                    sql = f"CREATE TABLE {spell[0]} (TAG INT)"
+                    marker = f"M{step_no}"  # a column only this incarnation has
+                    sql = f"CREATE TABLE {spell[0]} (TAG INT, {marker} INT)"
                 elif kind == "drop_table":
                     sql = f"DROP TABLE {spell[0]}"
                 elif kind == "create_view":
@@ -296,7 +335,7 @@ def run_history(case, ctx: Ctx) -> None:
                     spell[1] = _spell(names[1])
                     sql = f"CREATE VIEW {spell[0]} AS SELECT TAG FROM {spell[1]}"
                 elif kind == "insert":
-                    sql = f"INSERT INTO {spell[0]} VALUES ({tag})"
+                    sql = f"INSERT INTO {spell[0]} (TAG) VALUES ({tag})"
                 elif kind == "select":
                     sql = f"SELECT TAG FROM {spell[0]} ORDER BY TAG"
                 elif kind == "update":
@@ -308,7 +347,7 @@ def run_history(case, ctx: Ctx) -> None:
                 elif kind == "join":
                     sql = f"SELECT count(*) FROM {spell[0]} a JOIN {spell[1]} b ON a.TAG = b.TAG"
                 elif kind == "insert_select":
-                    sql = f"INSERT INTO {spell[0]} SELECT TAG + 1000 FROM {spell[1]}"
+                    sql = f"INSERT INTO {spell[0]} (TAG) SELECT TAG + 1000 FROM {spell[1]}"
                 elif kind == "ctas":
                     sql = f"CREATE TABLE {spell[0]} AS SELECT TAG + 2000 AS TAG FROM {spell[1]}"
                 else:
@@ -333,13 +372,20 @@ def run_history(case, ctx: Ctx) -> None:
                     elif kind in ("drop_table", "insert", "update", "delete"):
                         valid = tgt is not None and tgt["kind"] == "table"
                     elif kind in ("select", "describe"):
-                        valid = tgt is not None and (kind == "select" or tgt["kind"] == "table")
+                        valid = tgt is not None  # (DESCRIBE TABLE also describes a view)
                     elif kind == "join":
                         valid = tgt is not None and src is not None
                     elif kind == "insert_select":
                         valid = tgt is not None and tgt["kind"] == "table" and src is not None
                     else:
                         valid = False
+                    def _dangling(ob) -> bool:
+                        return bool(ob) and ob["kind"] == "view" and not ((m.cat.get(ob["of"][0], {}).get(ob["of"][1], {}).get(ob["of"][2]) or {}).get("kind") == "table")
+
+                    if valid and not o.ok and any(_dangling(ob) for ob in objs):
+                        # a view whose base table has been dropped since: the statement fails for that reason, not for how names resolve
+                        ctx.cls("view-over-dropped-table")
+                        continue
                     if not valid:
                         if o.ok:
                             ctx.fail(f"C03|resolved-elsewhere|statement-on-missing-object-succeeded|ctx={why[ci]}", f"{sql} (context {m.ctx[ci]}) succeeded but the model resolves it to {res} which is not usable; catalogue {_catalogue(m)}")
@@ -350,7 +396,12 @@ def run_history(case, ctx: Ctx) -> None:
                             return
                         ctx.cls(f"stmt:{kind}", f"levels:{levels}")
                         if kind == "create_table":
-                            m.cat[r0[1]][r0[2]][r0[3]] = {"kind": "table", "rows": []}
+                            m.cat[r0[1]][r0[2]][r0[3]] = {"kind": "table", "rows": [], "marker": marker}
+                        elif kind == "describe":
+                            want_cols = ["TAG"] + ([tgt["marker"]] if tgt.get("marker") else [])
+                            got_cols = [r[0] for r in o.rows]
+                            if tgt["kind"] == "table" and got_cols != want_cols:
+                                ctx.fail(f"C03|described-wrong-table|levels={levels}|ctx={why[ci]}", f"{sql} (context {m.ctx[ci]}) lists columns {got_cols}, the table it resolves to {res[0]} has {want_cols}; catalogue {_catalogue(m)}")
                         elif kind == "drop_table":
                             del m.cat[r0[1]][r0[2]][r0[3]]
                         elif kind == "create_view":
@@ -366,7 +417,7 @@ def run_history(case, ctx: Ctx) -> None:
                             pass
                         elif kind == "insert_select":
                             srows = src["rows"] if src["kind"] == "table" else (m.cat.get(src["of"][0], {}).get(src["of"][1], {}).get(src["of"][2]) or {"rows": []})["rows"]
-                            tgt["rows"].extend(t + 1000 for t in srows)
+                            tgt["rows"].extend([t + 1000 for t in srows])  # (a list: source and target may be the same table)
                         elif kind == "ctas":
                             m.cat[r0[1]][r0[2]][r0[3]] = {"kind": "table", "rows": [t + 2000 for t in src["rows"]]}
             # after every step: every connection's observers agree, rows are where the model says
